@@ -333,6 +333,31 @@ pub fn run(rep: &mut Report) {
         j_convert(&sub[(j / m) as usize], &sub[(j % m) as usize], x, &leap, out)
     });
     sweep(rep, "c12.sort", 3, |i, out| j_sort(i, deep, &pts, out));
+    // interior scan (round 8): evenly spread, unremarkable TAI instants within +-100 centuries, held in every pair of the seven
+    // scales with an exact reference conversion; the second instant is the same, 1 ns away, or a gap of every magnitude away
+    {
+        let nsc: u64 = if deep { 10_000_000 } else { 700_000 };
+        rep.bound("interior_scan_points", nsc);
+        let lp = &leap;
+        let mk = move |t: i128, ts: TimeScale| scales::from_tai(t, ts, lp).map(|c| Pt { ts, c, tai: t, exact: true });
+        sweep(rep, "c12.scan_pair", 49 * (nsc / 16), |i, out| {
+            let k = i / 49;
+            let t = crate::lattice::scan_point(k, 0, -100 * NPC, 100 * NPC);
+            let gap = match k % 4 { 0 => 0, 1 => if k % 8 == 1 { 1 } else { -1 }, _ => crate::lattice::scan_magnitude(k, 1, 0, 70) };
+            if let (Some(a), Some(b)) = (mk(t, xs[(i % 7) as usize]), mk(t + gap, xs[((i / 7) % 7) as usize])) {
+                j_pair(&a, &b, out)
+            }
+        });
+        sweep(rep, "c12.scan_convert", 7 * 49 * (nsc / 160), |i, out| {
+            let k = i / 343;
+            let t = crate::lattice::scan_point(k, 2, -100 * NPC, 100 * NPC);
+            let gap = if k % 2 == 0 { crate::lattice::scan_magnitude(k, 3, 0, 70) } else { [0i128, 1, -1][(k % 3) as usize] };
+            if let (Some(a), Some(b)) = (mk(t, xs[(i % 7) as usize]), mk(t + gap, xs[((i / 7) % 7) as usize])) {
+                j_convert(&a, &b, xs[((i / 49) % 7) as usize], lp, out)
+            }
+        });
+    }
+
     // order independence: comparisons of the same and of neighbouring instants held in different scales - after the last
     // table entry, between entries, in the pre-1972 era, mirrored about 1900 - in every order
     {
